@@ -4,9 +4,11 @@
    Executable; no proofs here.
    Time: instants in whole milliseconds (Z). Waits returned by try_acquire are exact
    rationals of milliseconds (num, den), den > 0: the sliding counter's estimate is not a
-   whole number of milliseconds. The sliding counter's f64 arithmetic is modelled by exact
-   rational/integer arithmetic (see DESIGN.md: it agrees with binary64 whenever
-   refresh_period is a power of two milliseconds, which the generator guarantees). *)
+   whole number of milliseconds. The sliding counter's f64 weight/estimate arithmetic is modelled by
+   exact rational/integer arithmetic. The two are not equal in general (see TRUSTED in
+   gen/ratelimiter_common.py: they give the same decisions for the periods that pass the bit-exact
+   emulation test counter_agrees, which is all the generators use); bucket rotation is integer
+   arithmetic in the code too (fix 0566530) and [rotate] is exact for every period. *)
 From TR Require Import Lib.Base.
 
 Inductive wtype := Fixed | SlidingLog | SlidingCounter.
